@@ -134,6 +134,31 @@ pub struct PxEnum {
     pub x: Color,
 }
 
+/// A response header whose type is a newtype over an enum that no body mentions: its component
+/// is a bare `$ref` to another component, which must be in the document too.
+#[derive(Default, Deserialize, Serialize, JsonSchema)]
+#[serde(rename_all = "lowercase")]
+pub enum HState {
+    #[default]
+    On,
+    Off,
+}
+#[derive(Default, Deserialize, Serialize, JsonSchema)]
+pub struct HStateHeader(pub HState);
+#[derive(Default, Serialize, JsonSchema)]
+pub struct HdrState {
+    pub state: HStateHeader,
+}
+pub async fn h0(_rq: RequestContext<AppCtx>) -> Result<dropshot::HttpResponseHeaders<HttpResponseOk<Simple>, HdrState>, HttpError> {
+    Ok(dropshot::HttpResponseHeaders::new(HttpResponseOk(Simple::default()), HdrState::default()))
+}
+pub async fn h1<P>(_rq: RequestContext<AppCtx>, _p: Path<P>) -> Result<dropshot::HttpResponseHeaders<HttpResponseOk<Simple>, HdrState>, HttpError>
+where
+    P: DeserializeOwned + JsonSchema + Send + Sync + 'static,
+{
+    Ok(dropshot::HttpResponseHeaders::new(HttpResponseOk(Simple::default()), HdrState::default()))
+}
+
 // ---- generic handlers
 
 pub async fn g0<R, E>(_rq: RequestContext<AppCtx>) -> Result<HttpResponseOk<R>, E>
@@ -165,13 +190,14 @@ where
     Ok(HttpResponseCreated(R::default()))
 }
 
-pub const NSHAPES: usize = 10;
+pub const NSHAPES: usize = 11;
 
 pub fn shape_name(i: usize) -> &'static str {
     [
         "Ok<Simple>", "Ok<Outer> (nested refs)", "Ok<Outer> (shared)", "Ok<ma::Foo>", "Ok<mb::Foo> (same schema name)",
         "Ok<Tree> (recursive)", "Ok<Simple>/ma::MyErr", "Ok<Simple>/mb::MyErr (same error name)", "Created<Inner>",
         "Ok<Vec<ma::Foo>> + enum path param",
+        "Headers<Ok<Simple>, {state: newtype of an enum used nowhere else}>",
     ][i % NSHAPES]
 }
 
@@ -216,7 +242,13 @@ pub fn endpoint6(s: &Spec6) -> ApiEndpoint<AppCtx> {
             Some((n, true)) if n == "r" => ApiEndpoint::new(op, c1::<Pr, Inner>, m, ct, p, s.range.to_dropshot()),
             other => panic!("c06: no shape for variable {other:?}"),
         },
-        _ => by_path!(Vec<ma::Foo>, HttpError),
+        9 => by_path!(Vec<ma::Foo>, HttpError),
+        _ => match &var {
+            None => ApiEndpoint::new(op, h0, m, ct, p, s.range.to_dropshot()),
+            Some((n, false)) if n == "x" => ApiEndpoint::new(op, h1::<Px>, m, ct, p, s.range.to_dropshot()),
+            Some((n, true)) if n == "r" => ApiEndpoint::new(op, h1::<Pr>, m, ct, p, s.range.to_dropshot()),
+            other => panic!("c06: no shape for variable {other:?}"),
+        },
     };
     e = e.visible(s.visible);
     for t in &s.tags {
